@@ -202,3 +202,26 @@ def h_make_functions(ctx):
 
 FUNCTIONS = dict(extract_function=h_extract_function,
                  make_functions=h_make_functions)
+
+
+def backend_sequence(seed, n, order):
+    """BOUNDED: `make_functions` on managers of both back ends one after the
+    other in ONE fresh interpreter (contracts/drivers/functions_sequence.py):
+    no state may carry over from one manager type to the other."""
+    def run():
+        import json
+        import os
+        import subprocess
+        import sys
+        from ovc import run as _run
+        drv = os.path.join(os.path.dirname(os.path.abspath(__file__)), 'drivers', 'functions_sequence.py')
+        out = subprocess.run([sys.executable, drv, os.path.abspath(_run.REPO), str(seed), str(n), order],
+                             capture_output=True, text=True, timeout=900)
+        line = [x for x in out.stdout.splitlines() if x.startswith('{')]
+        if out.returncode != 0 or not line:
+            raise RuntimeError(f'functions_sequence driver failed: {out.stderr[-600:]}')
+        d = json.loads(line[-1])
+        return dict(records=[], stats=dict(), functions={
+            'omega.symbolic.functions.make_functions': dict(source_lines=0, cut={}, stubs=[], dropped='run natively in a fresh interpreter: bounded')},
+            bounded=dict(evaluations=d['evaluations'], order=order, failures=d['failures']))
+    return run
